@@ -254,6 +254,11 @@ impl Read for SimReader {
             }
         }
         let k = k as usize;
+        if k == 0 {
+            // end of data (or a position beyond it after a seek past the end)
+            self.log.u64(0);
+            return Ok(0);
+        }
         let p = self.pos as usize;
         buf[..k].copy_from_slice(&self.data[p..p + k]);
         self.pos += k as u64;
